@@ -107,6 +107,30 @@ def explore(ctx):
                 lines.append("dec d%d %s max=1048576 stream=%s chunks=- mode=rest end=eof nt=%d" % (k, frames.ENV, s[:cut].hex(), 1 if cut < len(s) else 0))
                 k += 1
         kinds["truncate-every-offset"] = n_trunc
+        # a LARGE length prefix (at or just below the maximum, so it passes the prefix check) in front of a short frame whose
+        # argument / method / tag field is a 32-bit container or string header claiming up to 2^32-1 elements; the stream
+        # ends there.  What is buffered on behalf of this frame must not depend on what the prefix or the header CLAIM.
+        n_bomb = {"quick": 60, "thorough": 2000, "search": 200}[tier]
+        for _ in range(n_bomb):
+            mx = rng.choice([1048576, 1048576, 4194304])
+            claim = rng.choice([mx, mx - 1, mx - rng.below(1000), mx // 2])
+            hdr = rng.choice([b"\xdd", b"\xdf", b"\xdb", b"\xc6", b"\xdc\xff\xff", b"\xde\xff\xff"])
+            if len(hdr) == 1:
+                hdr += rng.choice([b"\x7f\xff\xff\xff", b"\x80\x00\x00\x00", b"\xff\xff\xff\xff", b"\x00\x10\x00\x00", b"\x04\x00\x00\x00"])
+            shape = rng.below(4)
+            if shape == 0:      # call to a registered method (untyped or typed handler), the bomb is the argument
+                body = b"\x94\x00" + mp.enc(rng.below(100), mp.Chooser()) + mp.enc(("s", rng.choice(frames.KNOWN)), mp.Chooser()) + hdr
+            elif shape == 1:    # notification, the bomb is the argument
+                body = b"\x93\x02" + mp.enc(("s", rng.choice(frames.KNOWN)), mp.Chooser()) + hdr
+            elif shape == 2:    # response to a pending call, the bomb is the result
+                body = b"\x94\x01\x07\xc0" + hdr
+            else:               # call, the bomb is the tag map
+                body = b"\x95\x00\x05" + mp.enc(("s", b"p.m"), mp.Chooser()) + b"\x01" + hdr
+            tail = rng.bytes(rng.below(24))
+            s_ = b"\xce" + claim.to_bytes(4, "big") + body + tail
+            lines.append("dec d%d %s max=%d stream=%s chunks=- mode=rest end=%s nt=1" % (k, frames.ENV, mx, s_.hex(), rng.choice(["eof", "op", "other"])))
+            k += 1
+        kinds["bomb-behind-a-large-prefix"] = n_bomb
         for _ in range(n_scn):
             s = session(rng)
             if rng.chance(3, 4):
